@@ -1,6 +1,7 @@
 """C44 -- repartitioning preserves rows, order and requested layout"""
 from __future__ import annotations
 
+import operator
 import types
 
 from symx.core import Violation, HarnessError
@@ -23,7 +24,9 @@ EXPLANATION = (
     "partition the new divisions dictate; pieces of an output partition are concatenated in increasing order. "
     "RepartitionToFewer._compute_partition_boundaries and RepartitionToMore._nsplits/_layer are executed with symbolic "
     "partition counts: exactly n output partitions, every input partition used once, order kept. Each path model is replayed "
-    "natively and (e2e) run through dd.repartition on a real pandas frame.")
+    "natively and (e2e) run through dd.repartition on a real pandas frame. Two float/NumPy-driven sub-kernels are covered by solver-enumerated "
+    "inputs only (no symbolic claim): split_evenly's row boundaries tile the partition, and repartition(npartitions=more) on integer divisions "
+    "(np.interp in float64, bases up to 2**62) keeps the end divisions, the rows and truthful divisions.")
 ASSUMPTIONS = [
     "methods.boundary_slice(df, lo, hi, right) is interpreted by its documented interval meaning [lo, hi) / [lo, hi]; that reading is "
     "validated on every e2e witness with a real pandas frame",
@@ -32,8 +35,8 @@ ASSUMPTIONS = [
     "float arithmetic in _compute_partition_boundaries (n_old / n_new, int(i * ratio)): operands are concretised and CPython's IEEE arithmetic is used",
 ]
 STUBS = ["stub pyarrow package for import", "duck-typed `self` (SimpleNamespace with frame.divisions/_name/npartitions) for the _layer methods"]
-ENUM = ["lengths of the division vectors", "n_old/n_new in RepartitionToFewer (float ratio concretises them)"]
-OUTSIDE = ["partition_size (memory measurement)", "freq", "split_evenly's np.linspace rounding (NumPy)", "npartitions increase through np.interp of numeric divisions (NumPy float)"]
+ENUM = ["lengths of the division vectors", "n_old/n_new in RepartitionToFewer (float ratio concretises them)", "L and k of split_evenly (np.linspace)", "all inputs of the numeric more-partitions path (np.interp in float64): base value from a list incl. |v| > 2**53, gaps, npartitions"]
+OUTSIDE = ["partition_size (memory measurement)", "freq", "datetime divisions in the np.interp path"]
 BOUNDS = {
     "quick": dict(old_divisions="2..4 symbolic ints, strictly increasing except the last two may be equal", new_divisions="2..4", values="unbounded ints",
                   force="both", tofewer="n_old in [2,10]", tomore="n_old in [1,3], n_new <= 8"),
@@ -238,6 +241,113 @@ def mk_more(old_hi, new_hi):
     return Obligation(f"tomore[n_old<={old_hi},n_new<={new_hi}]", setup, run, e2e=e2e, e2e_every=3)
 
 
+class _ILoc:
+    def __init__(self, owner):
+        self.owner = owner
+
+    def __getitem__(self, sl):
+        self.owner.taken.append((sl.start, sl.stop))
+        return (sl.start, sl.stop)
+
+
+class _FakeFrame:
+    def __init__(self, n):
+        self.n, self.taken = n, []
+        self.iloc = _ILoc(self)
+
+    def __len__(self):
+        return self.n
+
+
+def mk_split_evenly(Lmax, kmax):
+    """split_evenly(df, k) (used by repartition(npartitions=more) on non-numeric divisions and by partition_size): the k pieces
+    tile [0, len(df)).  np.linspace is NumPy code: L and k are concretised by the solver (bounded exhaustive)."""
+    def setup(e):
+        L = e.int("L", 0, Lmax)
+        k = e.int("k", 1, kmax)
+        return L, k
+
+    def run(e, L, k):
+        L, k = operator.index(L), operator.index(k)
+        df = _FakeFrame(L)
+        out = split_evenly(df, k)
+        e.check(sorted(out) == list(range(k)), "split_evenly does not return k pieces")
+        pos = 0
+        for i in range(k):
+            a, b = out[i]
+            e.check(a == pos and b >= a, f"piece {i} is rows [{a},{b}) but the previous piece ended at {pos}: rows lost or duplicated")
+            pos = b
+        e.check(pos == L, f"pieces end at row {pos}, the partition has {L} rows")
+        return [tuple(map(int, out[i])) for i in range(k)]
+
+    def e2e(model):
+        L, k = model["L"], model["k"]
+        if L == 0:
+            return
+        df = pd.DataFrame({"x": range(L)}, index=[f"r{i:04d}" for i in range(L)])
+        src = dd.from_pandas(df, npartitions=1)
+        out = src.repartition(npartitions=k)
+        got = out.compute(scheduler="sync")
+        if not got.equals(df):
+            raise Violation(f"repartition(npartitions={k}) of one {L}-row partition with string index: rows changed ({len(got)} of {L})")
+        if L >= k and out.npartitions != k:
+            raise Violation(f"repartition(npartitions={k}) gave {out.npartitions} partitions")
+
+    return Obligation(f"split_evenly[L<={Lmax},k<={kmax}]", setup, run, e2e=e2e, e2e_every=13)
+
+
+BASES = (0, -7, 2 ** 53 + 1, 2 ** 62 + 3, -(2 ** 53) - 1)
+
+
+def mk_interp(nold_max, nnew_max):
+    """repartition(npartitions=more) on known integer divisions interpolates the new divisions in float64 (np.interp); the values are
+    concretised.  Bases beyond 2**53 are included because there the float round trip no longer reproduces the end points."""
+    def setup(e):
+        base = e.pick("base", BASES)
+        nold = 1 + e.choice("nold", nold_max)
+        gaps = [e.int(f"g{i}", 1, 3) for i in range(nold)]
+        nnew = e.int("nnew", 2, nnew_max)
+        e.assume(lambda: nnew > nold)
+        # number of partitions the call will produce: a guess variable, pinned to the observed value below, so that it is part of
+        # the model (the known-finding predicate for "fewer partitions than asked" is stated over it)
+        parts = e.int("parts", 1, 2 * nnew_max)
+        return base, gaps, nnew, parts
+
+    def run(e, base, gaps, nnew, parts):
+        divs = [base]
+        for g in gaps:
+            divs.append(divs[-1] + operator.index(g))
+        nnew = operator.index(nnew)
+        idx = []
+        for a, b in zip(divs, divs[1:]):
+            idx += list(range(a, b))
+        idx.append(divs[-1])
+        df = pd.DataFrame({"x": range(len(idx))}, index=pd.Index(idx, dtype="int64"))
+        src = dd.from_pandas(df, npartitions=1).repartition(divisions=divs)
+        e.check(src.divisions == tuple(divs), "setup: source divisions")
+        out = src.repartition(npartitions=nnew)
+        nparts = len(out.divisions) - 1
+        e.assume(lambda: parts == nparts)
+        e.check(out.divisions[0] == divs[0] and out.divisions[-1] == divs[-1], f"end divisions changed: {out.divisions} from {divs}")
+        e.check(list(out.divisions) == sorted(out.divisions), "divisions not sorted")
+        got = out.compute(scheduler="sync")
+        e.check(got.equals(df), f"rows changed by repartition(npartitions={nnew}) of divisions {divs}")
+        n = nparts
+        low = out.optimize()
+        e.check(low.npartitions == n, "optimized collection has a different number of partitions than its divisions say")
+        for i in range(n):
+            ix = low.get_partition(i).compute(scheduler="sync").index
+            lo, hi = out.divisions[i], out.divisions[i + 1]
+            for x in ix:
+                ok = (lo <= x <= hi) if i == n - 1 else (lo <= x < hi)
+                e.check(ok, f"partition {i} holds index {x} outside [{lo}, {hi}{']' if i == n - 1 else ')'}")
+        # last, so that the clauses above are also decided on inputs covered by the listed known finding
+        e.check(lambda: parts == nnew, f"repartition(npartitions={nnew}) of integer divisions {divs} yields {nparts} partitions (divisions {out.divisions})")
+        return [int(d) for d in out.divisions]
+
+    return Obligation(f"more_partitions_numeric[nold<={nold_max},nnew<={nnew_max}]", setup, run)
+
+
 def obligations(tier):
     obs = []
     if tier == "quick":
@@ -245,11 +355,11 @@ def obligations(tier):
             for nb in (2, 3, 4):
                 for force in (False, True):
                     obs.append(mk_div(na, nb, force))
-        obs += [mk_fewer(10), mk_more(3, 8)]
+        obs += [mk_fewer(10), mk_more(3, 8), mk_split_evenly(30, 16), mk_interp(2, 5)]
     else:
         for na in (2, 3, 4, 5):
             for nb in (2, 3, 4, 5, 6):
                 for force in (False, True):
                     obs.append(mk_div(na, nb, force))
-        obs += [mk_fewer(40), mk_more(5, 14)]
+        obs += [mk_fewer(40), mk_more(5, 14), mk_split_evenly(80, 40), mk_interp(3, 8)]
     return obs
